@@ -16,6 +16,10 @@ func symxC02() {
 	p := b.start(nil)
 	pubS, pubC := b.session("pub", "cp", "m", 30)
 	subS, subC := b.session("sub", "cs", "m", 30)
+	if rt.Bool("stale_subscription_first") {
+		// a matching subscription whose session is not connected here (it just went away)
+		b.state.Subscriptions().Create("ghost", []byte("m/t/#"), 0)
+	}
 	subQos := int32(rt.Int("sub_qos", 0, 2))
 	err := p.proc.Process(b.ctx, subS, subC, &packet.Subscribe{Header: &packet.Header{}, MessageId: 1, Topic: [][]byte{[]byte("t/+")}, Qos: []int32{subQos}})
 	rt.Assert(err == nil, "C02.subscribe_ok")
